@@ -46,6 +46,10 @@ def check_one(src: str, mode: str, variant: str = "shipped"):
             return {"skip": "fstring"}
         tree, o = impl.parse_tree(src, mode, variant=variant)
         if tree is None:
+            from harness.props import c10 as _c10r
+
+            if o.get("k") == "err" and not _c10r.known_class(src) and "\r" not in src:
+                return {"kind": "rejected", "outcome": {k: v for k, v in o.items() if k != "dump"}}
             return {"skip": "fstring"}
 
         def spans(t):
@@ -55,6 +59,18 @@ def check_one(src: str, mode: str, variant: str = "shipped"):
         a, b = spans(tree), spans(ref)
         if len(a) == len(b) and sorted(a) != sorted(b):
             return {"kind": "diff", "diffs": [("JoinedStr spans", sorted(a)[:4], sorted(b)[:4])]}
+        # ... and the program AROUND the f-strings: with every f-string literal replaced by a placeholder the two trees have the
+        # same structure (which block each statement belongs to, what follows the literal); inputs of a known C10 class are left to C10
+        from harness.props import c10 as _c10k
+
+        if not _c10k.known_class(src):
+            class _Mask(ast.NodeTransformer):
+                def visit_JoinedStr(self, n):
+                    return ast.copy_location(ast.Constant(value="<f-string>"), n)
+
+            d = impl.ast_diff(_Mask().visit(tree), _Mask().visit(ref), with_attrs=False)
+            if d:
+                return {"kind": "diff", "diffs": [("around f-strings",) + tuple(d[:2])]}
         return {"skip": "fstring"}
     tree, o = impl.parse_tree(src, mode, variant=variant)
     if tree is None:
